@@ -131,6 +131,46 @@ theorem texbuf_inv_step (c : Cfg) (hc : Proved c) {t : Bool} {i : St} {s : SSt} 
   (sim_step hc R op hcom hun hmem).2.inv
 
 
+/-! ### ReadFrom and empty reads -/
+
+/-- what a scripted reader hands over does not depend on interleaved `(0, nil)` reads -/
+theorem delivered_ignores_empty_reads (greedy : Bool) (tail : Nat) :
+    ∀ (sizes : List Nat) (data : Bytes),
+      delivered greedy (sizes.filter (· ≠ 0)) tail data = delivered greedy sizes tail data
+  | [], _ => rfl
+  | k :: sizes, data => by
+    by_cases hk : k = 0
+    · subst hk
+      have ih := delivered_ignores_empty_reads greedy tail sizes data
+      simpa [delivered] using ih
+    · have ih := delivered_ignores_empty_reads greedy tail sizes (data.drop k)
+      simpa [hk, delivered] using ih
+
+/-- the same reader without its empty reads -/
+def Reader.withoutEmptyReads (r : Reader) : Reader := { r with sizes := r.sizes.filter (· ≠ 0) }
+
+/-- **ReadFrom keeps reading through empty reads**: a `(0, nil)` answer changes nothing and the loop continues, however
+    many of them come in a row — result, error and contents are those of the reader with the empty reads removed
+    (`bytes.Buffer` gives up on no count of them; only `io.EOF` or an error ends the loop) -/
+theorem readFrom_ignores_empty_reads (c : Cfg) (hc : Proved c) {t : Bool} {i : St} {s : SSt} (R : Rel t i s) (r : Reader)
+    (hcom : Common c (.readFrom r))
+    (hmem : (step c i (.readFrom r)).2 ≠ .panic .tooLarge)
+    (hmem' : (step c i (.readFrom r.withoutEmptyReads)).2 ≠ .panic .tooLarge) :
+    (step c i (.readFrom r)).2 = (step c i (.readFrom r.withoutEmptyReads)).2 ∧
+    (step c i (.readFrom r)).1.data = (step c i (.readFrom r.withoutEmptyReads)).1.data := by
+  have hcom' : Common c (.readFrom r.withoutEmptyReads) :=
+    ⟨fun k hk => hcom.1 k (List.mem_filter.1 hk).1, hcom.2⟩
+  have a := texbuf_step_refines c hc R (.readFrom r) hcom (by simp [isUnread]) (fun h => absurd h hmem)
+  have b := texbuf_step_refines c hc R (.readFrom r.withoutEmptyReads) hcom' (by simp [isUnread]) (fun h => absurd h hmem')
+  have e : Spec.step s (.readFrom r.withoutEmptyReads) = Spec.step s (.readFrom r) := by
+    simp only [Spec.step, Reader.withoutEmptyReads, delivered_ignores_empty_reads]
+  rw [a.1, a.2.1, b.1, b.2.1, e]
+  exact ⟨rfl, rfl⟩
+
+/-- 101 empty reads in a row between two chunks: all three bytes arrive, no error -/
+example : (outs (implObs ⟨.unsigned, .half, 4, 4⟩) St.zero
+    [.readFrom ⟨[1, 2, 3], [1] ++ List.replicate 101 0 ++ [1], 4, .eof, false⟩]) = [(.nErr 3 .nil, [1, 2, 3])] := by decide
+
 /-! ### the exclusion in the property's literal wording -/
 
 def isGrow : Op → Bool
